@@ -128,6 +128,31 @@ func runC06(a *Analyzer, r *Results) {
 			} else if facts.Has(Ne(S, Const("0"))) != nil {
 				ok = val.Key() == form.Key()
 				why += " on the total-weight-nonzero path, expected " + PP(form)
+			} else if val.Op == "ite" && len(val.Args) == 3 {
+				// the case distinction is part of the returned value (a helper computes "0 when the total is 0, else ..."):
+				// ite(S == 0, zero value, form) in either orientation
+				c, x, y := val.Args[0], val.Args[1], val.Args[2]
+				neg := false
+				for c.Op == "un" && c.Name == "!" && len(c.Args) == 1 {
+					c, neg = c.Args[0], !neg
+				}
+				isZeroTest := c.Op == "bin" && (c.Name == "==" || c.Name == "!=") && len(c.Args) == 2 &&
+					((c.Args[0].Key() == S.Key() && c.Args[1].Key() == Const("0").Key()) || (c.Args[1].Key() == S.Key() && c.Args[0].Key() == Const("0").Key()))
+				if isZeroTest {
+					if c.Name == "!=" {
+						neg = !neg
+					}
+					zv, nz := x, y
+					if neg {
+						zv, nz = y, x
+					}
+					for _, z := range zeroVals {
+						if zv.Key() == z.Key() && nz.Key() == form.Key() {
+							ok = true
+						}
+					}
+				}
+				why += ", expected " + PP(form) + " unless the total weight is 0"
 			} else {
 				why += " on a path that does not test the total weight against 0"
 			}
